@@ -210,8 +210,8 @@ def caching_1d(ex, uni, res, what):
 
 
 @harness('C14', name='caching_2d', universe=_universe, validate=lambda uni, **kw: _validate(uni, 2),
-         tiers={'quick': [{'res': 0.5, 'what': w} for w in ('history', 'nodes', 'bilinear', 'outside')],
-                'thorough': [{'res': r, 'what': w} for r in (0.5, 0.34) for w in ('history', 'nodes', 'bilinear', 'outside')]},
+         tiers={'quick': [{'res': 0.5, 'what': w} for w in ('history', 'nodes', 'bilinear', 'bilinear_bounds', 'outside')],
+                'thorough': [{'res': r, 'what': w} for r in (0.5, 0.34) for w in ('history', 'nodes', 'bilinear', 'bilinear_bounds', 'outside')]},
          functions=[(CACH % 2) + '.Caching2D'], cover=['evaluated'],
          bounds={'area': '[0,1]^2, resolution concrete per job (2-3 cells per axis); points and function values symbolic'},
          stubs=['numpy.linalg.solve: exact rational inverse of the concrete 16x16 matrix'], outside=['curvature error bound in 2D'])
@@ -220,8 +220,8 @@ def caching_2d(ex, uni, res, what):
 
 
 @harness('C14', name='caching_3d', universe=_universe, validate=lambda uni, **kw: _validate(uni, 3),
-         tiers={'quick': [{'res': 0.5, 'what': w} for w in ('trilinear',)],
-                'thorough': [{'res': 0.5, 'what': w} for w in ('history', 'nodes', 'trilinear', 'outside')]},
+         tiers={'quick': [{'res': 0.5, 'what': w} for w in ('trilinear', 'trilinear_bounds')],
+                'thorough': [{'res': 0.5, 'what': w} for w in ('history', 'nodes', 'trilinear', 'trilinear_bounds', 'outside')]},
          functions=[(CACH % 3) + '.Caching3D'], cover=['evaluated'],
          bounds={'area': '[0,1]^3, 2 cells per axis; points and function values symbolic'},
          stubs=['numpy.linalg.solve: exact rational inverse of the concrete 64x64 matrix'], outside=['curvature error bound in 3D'])
@@ -250,8 +250,13 @@ def _nd(ex, uni, dim, res, what):
         pt = [ax[int(ex.int('node' + n, 0, len(ax) - 1))] for n, ax in zip(names, axes)]
         ex.cover('evaluated')
         ex.prove(ex.eq(c1(*pt), ex.uf('F', *pt)), 'value-at-sampling-node==wrapped-function')
-    elif what in ('bilinear', 'trilinear'):
+    elif what in ('bilinear', 'trilinear', 'bilinear_bounds', 'trilinear_bounds'):
         co = [ex.real('c%d' % i) for i in range(2 ** dim)]
+        kw = {}
+        if what.endswith('_bounds'):
+            # value normalisation: supplying function bounds only rescales internally
+            dmin, dd = ex.real('data_min'), ex.real('data_range', pos=True)
+            kw['function_boundaries'] = (dmin, dmin + dd)
 
         def f(*p):
             # function linear in each coordinate: sum over subsets of coordinates
@@ -263,10 +268,10 @@ def _nd(ex, uni, dim, res, what):
                         term = term * p[d]
                 tot = tot + term
             return tot
-        c1 = _mk(uni, ex, dim, PolyF(f, _base(dim)), lo, hi, res)
+        c1 = _mk(uni, ex, dim, PolyF(f, _base(dim)), lo, hi, res, **kw)
         p = [ex.real('p' + n, lo=0, hi=1) for n in names]
         ex.cover('evaluated')
-        ex.prove(ex.eq(c1(*p), f(*p)), 'function-linear-in-each-coordinate-reproduced-exactly')
+        ex.prove(ex.eq(c1(*p), f(*p)), 'function-linear-in-each-coordinate-reproduced-exactly' + ('(with-function_boundaries)' if kw else ''))
     else:
         F = RecF(ex, 'F', _base(dim))
         nbe = bool(ex.bool('no_boundary_error'))
